@@ -365,4 +365,44 @@ theorem flightRoundTrip_typed {reg : Registry F} (hinv : RegInv reg) {sem : Sem 
           rw [h2]; exact wellTyped_wrapHop hnn _ _ _ _
 
 
+
+/-- two dicts with the same content (equal lookups) but possibly different iteration order give the same result -/
+theorem tfsTransform_order_independent {reg1 reg2 : Registry F} (h1 : RegInv reg1) (h2 : RegInv reg2)
+    (hl : ∀ k, lookup reg1 k = lookup reg2 k) (pa : Option F) (sem : Sem F) (fromT toT : F) (d : Option (Data F)) :
+    tfsTransform reg1 pa sem fromT toT d = tfsTransform reg2 pa sem fromT toT d := by
+  have hc : getTransformationChain reg1 pa fromT toT = getTransformationChain reg2 pa fromT toT := by
+    unfold getTransformationChain; simp only [hl]
+  unfold tfsTransform
+  split
+  · rfl
+  · rw [← hc]
+    cases hch : getTransformationChain reg1 pa fromT toT with
+    | none => rfl
+    | some chain =>
+      simp only
+      have hp1 := chain_isPath h1 hch
+      have hp2 := chain_isPath h2 (hc ▸ hch)
+      have hlen := hch
+      unfold getTransformationChain at hlen
+      cases hd : lookup reg1 (fromT, toT) with
+      | some t => simp [hd] at hlen; subst hlen; simp [tfsLoop]
+      | none =>
+        simp only [hd] at hlen
+        cases pa with
+        | none => simp at hlen
+        | some p =>
+          simp only at hlen
+          cases ha : lookup reg1 (fromT, p) with
+          | none => simp [ha] at hlen
+          | some a =>
+            cases hb : lookup reg1 (p, toT) with
+            | none => simp [ha, hb] at hlen
+            | some b =>
+              simp [ha, hb] at hlen; subst hlen
+              have f1 := findIntermediate_of_mem h1 (lookup_connects h1 ha) (lookup_mem ha)
+              have ha2 : lookup reg2 (fromT, p) = some a := by rw [← hl]; exact ha
+              have f2 := findIntermediate_of_mem h2 (lookup_connects h2 ha2) (lookup_mem ha2)
+              simp only [tfsLoop, f1, f2]
+
+
 end Transform
